@@ -553,7 +553,10 @@ func (e *Env) constructorFresh(l *facts.Level, rule string) {
 func (e *Env) namesReaders(v *spec.Version, ls []*facts.Level) {
 	c := e.C
 	for _, l := range ls {
-		allowed := map[string]bool{"decodeOne": true}
+		allowed := map[string]bool{}
+		if l.DecodeOne != nil {
+			allowed[l.DecodeOne.Name()] = true
+		}
 		if v.Name == "v2" || l.Lower == nil {
 			allowed["Encode"] = true
 		}
@@ -1033,7 +1036,7 @@ func (e *Env) writeOwnership(v *spec.Version, ls []*facts.Level) {
 				}
 				writers[fv][fn.String()] = true
 				obj, _ := fn.Object().(*types.Func)
-				okWriter := obj != nil && (obj == l.Method("decodeOne") || obj == e.P.LookupFunc(v.Pkg, "New"+l.Spec.Name))
+				okWriter := obj != nil && (obj == l.DecodeOne || obj == e.P.LookupFunc(v.Pkg, "New"+l.Spec.Name))
 				if fv == l.VerField && obj != nil && obj.Name() == "Decode" {
 					okWriter = true // checked by version-recorded
 				}
